@@ -1,159 +1,370 @@
 """C16 -- f_apply calls the function once, with every argument in its place.
 
+Everything is discovered from the public root f_apply: the recursive worker is the function reachable from it that
+calls itself; the list it is given is reconstructed from how f_apply (helpers inlined) builds it; the partially
+applied function is found through the closures the worker passes to with_flat_map / with_map.  No private name is
+referred to.
+
 Decided:
-  R-WRAP    _wrap_args lists the positional argument futures in order, tagged as positional, and one
-            (name, future) pair per keyword argument
+  R-WRAP    the list handed to the worker consists of one (TAG, future) pair per positional argument, in order,
+            followed by one (name, future) pair per keyword argument -- whether it is built by loops that append,
+            by a comprehension, by extend() or a mixture
   R-CURRY   each step peels one (key, future) pair off the list and recurses on the remainder; the partially
             applied function inserts the resolved value at the position that matches the peeling order
-            (first peeled <-> inserted at the front: later-peeled values are inserted at the front earlier in the
-            call chain, so the original order is restored), or binds it under exactly its own key
+            (first peeled <-> inserted at the front), or binds it under exactly its own key; the positional tag
+            is a unique sentinel recognised by identity
   R-ONCE    the user's function is called at exactly one place per step (inside the partially applied function,
             with the accumulated *args, **kwargs) and once in the base case with no arguments; nowhere else
   R-SHRINK  the recursion is on a strictly shorter list; the base case is the empty list
   R-PLUMB   each step resolves the argument future first (flat_map over it) and maps the function future with the
-            partially applied function; f_apply passes its inputs through _wrap_args unchanged
+            partially applied function; free variables of the closures are resolved as Python does -- at the time
+            the closure runs, i.e. to the *last* binding in the worker
+  R-CAPTURE a closure that runs later does not refer to a local that is re-bound after the closure was created
 Not decided: extensional equality for all arities (argued by induction from R-CURRY); failure propagation is the
 map/flat_map behaviour of C13.
 """
+import ast
+
 from ..core import where_of, trace_of
-from ..interp import fmt, contains, subterms
+from ..interp import fmt, contains, subterms, CLOSURES
 from ..model import AnalysisError
 from .. import q
+from .. import roles
+
+
+def fn_of(prog, v):
+    if isinstance(v, tuple) and v and v[0] == "closure":
+        return CLOSURES[v[2]][0]
+    if isinstance(v, tuple) and v and v[0] == "func":
+        return prog.functions.get(v[1])
+    return None
+
+
+def resolve_free(t, fi, R, renv):
+    """what a free variable of the nested function fi denotes when fi runs: a parameter of an enclosing nested
+    function -> ('outer', <that function>, name); a local of the worker R -> its last binding there"""
+    if not (isinstance(t, tuple) and t and t[0] == "free"):
+        return t
+    f = fi.parent
+    while f is not None:
+        if f is R:
+            return renv.get(t[1], t)
+        if t[1] in f.all_param_names():
+            return ("outer", f.key, t[1])
+        f = f.parent
+    return t
+
+
+def history(p, L, upto):
+    """how the list object L was filled, in order: [(seq, 'each', source, value, loop-id) | (seq, 'one', value) |
+    (seq, 'bad', what)]"""
+    out = []
+    stack = []
+    ELEM = ("<element>",)
+
+    def bulk(seqno, X):
+        X = q.deref(p, X) if isinstance(X, tuple) and X and X[0] == "ref" else X
+        if isinstance(X, tuple) and X and X[0] == "comp":
+            if X[1] in ("ListComp", "GeneratorExp") and len(X[3]) == 1 and not X[4] and len(X[2]) == 1:
+                out.append((seqno, "each", X[3][0], X[2][0], None))
+            else:
+                out.append((seqno, "bad", "filtered or nested comprehension"))
+        elif isinstance(X, tuple) and X and X[0] == "list":
+            for v in X[1]:
+                out.append((seqno, "one", v))
+        elif isinstance(X, tuple) and X and X[0] == "listof":
+            bulk(seqno, X[1])
+            for v in X[2]:
+                out.append((seqno, "one", v))
+        else:
+            out.append((seqno, "each", X, ELEM, None))
+
+    if not (isinstance(L, tuple) and L and L[0] == "ref"):
+        bulk(-1, L)
+    for e in p.events:
+        if e.seq >= upto:
+            break
+        if e.kind == "newlist" and e.d["ref"] == L:
+            bulk(e.seq, e.d["content"])
+        elif e.kind == "loop":
+            if e.d[0] == "enter":
+                stack.append([e, e.d[1], None])
+            elif e.d[0] == "exit" and stack:
+                stack.pop()
+        elif e.kind == "call" and q.recv(e) == L:
+            n = q.call_name(e)
+            if n == "append" and len(e.d["args"]) == 1:
+                if stack:
+                    out.append((e.seq, "each", stack[-1][1], e.d["args"][0], stack[-1][0].seq))
+                else:
+                    out.append((e.seq, "one", e.d["args"][0]))
+            elif n == "extend" and len(e.d["args"]) == 1:
+                if stack:
+                    out.append((e.seq, "bad", "extend inside a loop"))
+                else:
+                    bulk(e.seq, e.d["args"][0])
+            else:
+                out.append((e.seq, "bad", n))
+    return out
+
+
+def stmt_loops(p, upto):
+    """statement loops of the path before `upto`: [(enter event, source, iterations)] (comprehensions excluded)"""
+    out = []
+    stack = []
+    for e in p.events:
+        if e.seq >= upto:
+            break
+        if e.kind != "loop":
+            continue
+        if e.d[0] == "enter":
+            stack.append([e, e.d[1], 0])
+        elif e.d[0] == "back" and stack:
+            stack[-1][2] += 1
+        elif e.d[0] == "exit" and stack:
+            rec = stack.pop()
+            if e.d[1] != "comprehension":
+                out.append(tuple(rec))
+    out.sort(key=lambda r: r[0].seq)
+    return out
 
 
 def check(ctx, rep):
     prog = ctx.prog
-    rep.rule("R-WRAP", "_wrap_args(*fs, **kw) = [(ARGS, f) for f in fs] + [(k, v) for k, v in kw.items()], built by appending in iteration order")
-    rep.rule("R-CURRY", "peeling pair (key, future) at index i of the list and recursing on the list without it must be matched by the insertion: index 0 / rest [1:] <-> args.insert(0, x); index -1 / rest [:-1] <-> args.append(x); keyword values are bound as kwargs[key] = x with the peeled key")
+    rep.rule("R-WRAP", "the list given to the recursive worker is [(TAG, f) for f in positional futures] + [(k, v) for k, v in keyword futures.items()], in this order, nothing filtered")
+    rep.rule("R-CURRY", "peeling pair (key, future) at index i of the list and recursing on the list without it must be matched by the insertion: index 0 / rest [1:] <-> insert(0, x); index -1 / rest [:-1] <-> append(x); keyword values are bound as kwargs[key] = x with the peeled key; the positional tag is a unique object() compared with `is`")
     rep.rule("R-ONCE", "the function value is called exactly once per partially applied function (return fn(*args, **kwargs)) and exactly once, without arguments, in the base case")
-    rep.rule("R-SHRINK", "_wrapped_f_apply returns the base case exactly when the list is empty and otherwise recurses on the remainder of the same list")
-    rep.rule("R-PLUMB", "a step is wrap(future_x).with_flat_map(lambda x: wrap(future_fn).with_map(lambda fn: fn_runner(fn, x))())(); f_apply = _wrapped_f_apply(future_fn, _wrap_args(*future_args, **future_kwargs))")
-    wa = prog.fn("apply:_wrap_args")
-    wf = prog.fn("apply:_wrapped_f_apply")
+    rep.rule("R-SHRINK", "the worker returns the base case exactly when the list is empty and otherwise recurses on the remainder of the same list")
+    rep.rule("R-PLUMB", "a step is W(future_x).with_flat_map(G)() with G(x) = W(future_fn).with_map(H)() and H(fn) = <partial application>(fn, x), where W(f) binds a function returning f; f_apply passes its function future and the list built from all its arguments to the worker")
+    rep.rule("R-CAPTURE", "a closure created inside the worker and run later (as a map function) does not refer to a local variable of its defining function that is assigned again after the closure was created (Python closures bind late)")
     fa = prog.fn("apply:f_apply")
-    wrapf = prog.fn("base:wrap")
+    rep.require(fa.vararg is not None and fa.kwarg is not None, "f_apply must take *future_args, **future_kwargs")
 
-    # ---- _wrap_args
-    ps, it = ctx.paths(wa, None, depth=0)
-    full = [p for p in ps if p.status == "return"]
-    rep.require(full, "_wrap_args: no returning path")
-    seen_pos = seen_kw = False
-    for p in full:
-        apps = [e for e in p.calls() if q.call_name(e) == "append"]
-        order = []
-        for e in apps:
-            a = e.d["args"][0]
-            if not (isinstance(a, tuple) and a[0] == "tuple" and len(a[1]) == 2):
-                rep.ob("R-WRAP", "_wrap_args appends (tag, future) pairs", False, "appends %s" % fmt(a), where_of(wa, e.node))
-                continue
-            tag, val = a[1]
-            if isinstance(tag, tuple) and tag[0] == "global" and tag[2] == "ARGS":
-                seen_pos = True
-                order.append("pos")
-                rep.ob("R-WRAP", "_wrap_args: positional futures are tagged ARGS, in iteration order", isinstance(val, tuple) and val[0] == "elem" and val[1] == ("seq", (), ("param", wa.vararg), 0), "pair (%s, %s)" % (fmt(tag), fmt(val)), where_of(wa, e.node))
+    # ---- the recursive worker
+    cands = []
+    for fi in prog.functions.values():
+        if fi.module is fa.module and fi.parent is None and fi is not fa:
+            ps, it = ctx.paths(fi, None, depth=0)
+            if any(e.d["callee"] is fi for p in ps for e in p.calls()):
+                cands.append(fi)
+    rep.require(len(cands) == 1, "f_apply: expected exactly one recursive worker function in %s, found %s" % (fa.module.relpath, [f.qualname for f in cands]))
+    R = cands[0]
+    rep.require(len(R.params) == 2 and not R.vararg and not R.kwarg, "%s: expected (function future, list of pairs)" % R.qualname)
+
+    # ---- f_apply: plumbing and the list
+    ps, it = ctx.paths(fa, None, depth=4, inline=lambda callee, ev, path: False if callee is R else roles.std_inline(callee, ev, path))
+    FNp = LSTp = None
+    ARGSEQ = ("seq", (), ("param", fa.vararg), 0)
+    KW = ("kw", (), ("param", fa.kwarg))
+    tags = set()
+    full = False
+    nret = 0
+    for p in ps:
+        if p.status != "return":
+            rep.ob("R-PLUMB", "f_apply does not raise on its own", False, "raises %s" % fmt(p.value), where_of(fa), trace_of(p))
+            continue
+        nret += 1
+        rc = [e for e in p.calls() if e.d["callee"] is R]
+        ok = len(rc) == 1 and p.value == q.result_of(rc[0])
+        rep.ob("R-PLUMB", "f_apply returns the worker's result", ok, "returns %s" % fmt(p.value), where_of(fa), trace_of(p))
+        if not ok:
+            continue
+        b = roles.bound(rc[0], prog)
+        fnp = [k for k in R.params if b.get(k) == ("param", fa.params[0])]
+        rep.ob("R-PLUMB", "f_apply passes its function future to the worker", len(fnp) == 1, "worker called with %s" % dict((k, fmt(v)) for k, v in b.items() if isinstance(v, tuple)), where_of(fa, rc[0].node), trace_of(p))
+        if len(fnp) != 1:
+            continue
+        FNp = fnp[0]
+        LSTp = [k for k in R.params if k != FNp][0]
+        L = b.get(LSTp)
+        hist = history(p, L, rc[0].seq)
+        loops = stmt_loops(p, rc[0].seq)
+        kinds = []
+        bad = None
+        per_loop = {}
+        for h in hist:
+            if h[1] != "each":
+                bad = "an element outside any iteration over the arguments: %s" % (fmt(h[2]) if isinstance(h[2], tuple) else h[2])
+                break
+            src, val, lid = h[2], h[3], h[4]
+            k = None
+            if isinstance(val, tuple) and val[0] == "tuple" and len(val[1]) == 2 and isinstance(val[1][0], tuple) and val[1][0][0] == "global":
+                tags.add(val[1][0])
+            if roles.container_of(src) == ARGSEQ:
+                okv = isinstance(val, tuple) and val[0] == "tuple" and len(val[1]) == 2 and isinstance(val[1][0], tuple) and val[1][0][0] == "global" and isinstance(val[1][1], tuple) and val[1][1][0] == "elem" and val[1][1][1] == src
+                if okv:
+                    k = "pos"
+                    tags.add(val[1][0])
+                else:
+                    bad = "positional futures must be stored as (TAG, future), found %s" % fmt(val)
+            elif _is_items(src, KW):
+                okv = val == ("<element>",) or (isinstance(val, tuple) and val[0] == "elem" and val[1] == src)
+                if not okv and isinstance(val, tuple) and val[0] == "tuple" and len(val[1]) == 2:
+                    a, c = val[1]
+                    okv = isinstance(a, tuple) and isinstance(c, tuple) and a[0] == "unpack" and c[0] == "unpack" and a[1] == c[1] and a[2] == 0 and c[2] == 1 and a[1][0] == "elem" and a[1][1] == src
+                if okv:
+                    k = "kw"
+                else:
+                    bad = "keyword futures must be stored as (name, future) of the same item, found %s" % fmt(val)
             else:
-                seen_kw = True
-                order.append("kw")
-                ok = isinstance(tag, tuple) and tag[0] == "unpack" and tag[2] == 0 and isinstance(val, tuple) and val[0] == "unpack" and val[2] == 1 and tag[1] == val[1] and contains(tag[1], ("kw", (), ("param", wa.kwarg)))
-                rep.ob("R-WRAP", "_wrap_args: each keyword future is paired with its own name", ok, "pair (%s, %s)" % (fmt(tag), fmt(val)), where_of(wa, e.node))
-        # the list returned is the one appended to, nothing reordered
-        v = p.value
-        rep.ob("R-WRAP", "_wrap_args returns the list it built", isinstance(v, tuple) and v[0] in ("list", "call", "listof") and len(v[1]) == len(apps) if v[0] == "list" else True, "returns %s" % fmt(v), where_of(wa))
-    rep.ob("R-WRAP", "_wrap_args handles positional and keyword arguments", seen_pos and seen_kw, "", where_of(wa))
+                bad = "elements taken from %s, which is neither the positional nor the keyword futures" % fmt(src)
+            if bad:
+                break
+            if lid is None:
+                kinds.append((h[0], k))
+            else:
+                per_loop[lid] = per_loop.get(lid, 0) + 1
+        if not bad:
+            for ent, src, n in loops:
+                k = "pos" if roles.container_of(src) == ARGSEQ else "kw" if _is_items(src, KW) else None
+                if k is None:
+                    continue
+                kinds.append((ent.seq, k))
+                if per_loop.get(ent.seq, 0) != (1 if n else 0):
+                    bad = "the loop over %s adds %d pairs in %d iterations (every argument must be added exactly once)" % (fmt(src), per_loop.get(ent.seq, 0), n)
+                if n and k:
+                    pass
+            order = [k for s_, k in sorted(kinds)]
+            if not bad and order != ["pos", "kw"]:
+                bad = "the list is filled in the order %s: it must hold all positional futures, then all keyword futures" % order
+            if all(n for ent, src, n in loops):
+                full = True
+        rep.ob("R-WRAP", "f_apply hands the worker every argument future, tagged, in order", not bad, bad or "", where_of(fa, rc[0].node), trace_of(p))
+    rep.require(nret > 0 and FNp is not None, "f_apply: call of the recursive worker not found")
+    rep.ob("R-WRAP", "f_apply: a path on which every argument loop iterates was analysed", full, "", where_of(fa))
+    rep.ob("R-WRAP", "f_apply: one positional tag", len(tags) == 1, "tags: %s" % sorted(fmt(t) for t in tags), where_of(fa))
+    TAG = sorted(tags)[0] if tags else None
+    if TAG is not None:
+        tagmod = [m for m in prog.modules.values() if m.name == TAG[1]]
+        tagdef = tagmod[0].assigns.get(TAG[2], []) if tagmod else []
+        uniq = len(tagdef) == 1 and isinstance(tagdef[0], ast.Call) and isinstance(tagdef[0].func, ast.Name) and tagdef[0].func.id == "object" and not tagdef[0].args
+        rep.ob("R-CURRY", "the positional tag is a unique sentinel", uniq, "%s is defined as %s: it can collide with a keyword argument's name" % (TAG[2], ast.unparse(tagdef[0]) if tagdef else None), fa.module.relpath)
 
-    # ---- _wrapped_f_apply
-    ps, it = ctx.paths(wf, None, depth=0)
-    FN, LST = ("param", wf.params[0]), ("param", wf.params[1])
+    # ---- the worker
+    FN, LST = ("param", FNp), ("param", LSTp)
+    ps, it = ctx.paths(R, None, depth=0)
     kinds = set()
-    peel = rest = None
+    peel = None
     runner = None
+    fnP = xP = None
+    renv = None
+    KEY = None
+    W = None
     for p in ps:
         if p.status != "return":
             continue
         empty = None
-        for t, v in p.branch_atoms():
+        for t, v, e in q.atoms(p):
             if t == LST:
                 empty = not v
-        rep.require(empty is not None, "_wrapped_f_apply: test of the argument list not found")
-        rec = [e for e in p.calls() if e.d["callee"] is wf]
+            elif isinstance(t, tuple) and t[0] == "cmp" and t[1] in ("==", "!=", ">", "<", ">=") and ("call", ("name", "len"), (LST,), (), None) in (t[2], t[3]) and ("const", 0) in (t[2], t[3]):
+                empty = (v if t[1] == "==" else not v) if t[1] in ("==", "!=", ">") else None
+        rep.require(empty is not None, "%s: test of the argument list not found" % R.qualname)
+        rec = [e for e in p.calls() if e.d["callee"] is R]
+        env = p.frames[0].env if p.frames else {}
         if empty:
             kinds.add("base")
-            rep.ob("R-SHRINK", "_wrapped_f_apply: the empty list is the base case (no recursion)", not rec, "", where_of(wf), trace_of(p))
-            w = [e for e in p.calls() if e.d["callee"] is wrapf]
+            rep.ob("R-SHRINK", "worker: the empty list is the base case (no recursion)", not rec, "", where_of(R), trace_of(p))
+            w = [e for e in p.calls() if e.d["args"] == (FN,) and not e.d["kwargs"] and e.d["callee"] is not None]
             m = [e for e in p.calls() if q.call_name(e) == "with_map"]
-            ok = len(w) == 1 and w[0].d["args"] == (FN,) and len(m) == 1 and len(m[0].d["args"]) == 1 and m[0].d["args"][0][0] == "closure"
+            ok = len(w) == 1 and len(m) == 1 and q.recv(m[0]) == q.result_of(w[0])
+            sub = None
             if ok:
-                sub = it.closures[m[0].d["args"][0][2]][0]
+                W = w[0].d["callee"]
+                vals = list(m[0].d["args"]) + [v for k, v in m[0].d["kwargs"]]
+                sub = fn_of(prog, vals[0]) if len(vals) == 1 else None
+                ok = sub is not None and len(sub.params) == 1
+            if ok:
                 ps2, it2 = ctx.paths(sub, None, depth=0)
                 for p2 in ps2:
                     if p2.status == "raise":
                         continue  # the function itself raised: the map layer turns that into the outcome (C13)
                     uc = [e for e in p2.calls() if e.d["func"] == ("param", sub.params[0])]
-                    rep.ob("R-ONCE", "base case: the fully applied function is called once, without arguments", len(uc) == 1 and not uc[0].d["args"] and not uc[0].d["kwargs"] and p2.status == "return" and p2.value[:2] == ("call", ("param", sub.params[0])), "calls: %s" % [fmt(e.d["func"]) for e in p2.calls()], where_of(sub), trace_of(p2))
-            rep.ob("R-PLUMB", "base case: wrap(future_fn).with_map(<call it>)()", ok and isinstance(p.value, tuple) and p.value[0] == "call" and not p.value[2], "returns %s" % fmt(p.value), where_of(wf), trace_of(p))
+                    rep.ob("R-ONCE", "base case: the fully applied function is called once, without arguments", len(uc) == 1 and len(p2.calls()) == 1 and not uc[0].d["args"] and not uc[0].d["kwargs"] and p2.status == "return" and p2.value == q.result_of(uc[0]), "calls: %s" % [fmt(e.d["func"]) for e in p2.calls()], where_of(sub), trace_of(p2))
+            fin = [e for e in p.calls() if m and e.d["func"] == q.result_of(m[0])]
+            rep.ob("R-PLUMB", "base case: W(future_fn).with_map(<call it>)()", ok and len(fin) == 1 and not fin[0].d["args"] and not fin[0].d["kwargs"] and p.value == q.result_of(fin[0]), "returns %s" % fmt(p.value), where_of(R), trace_of(p))
             continue
         kinds.add("step")
-        rep.ob("R-SHRINK", "_wrapped_f_apply: exactly one recursive call per step", len(rec) == 1, "recursive calls: %d" % len(rec), where_of(wf), trace_of(p))
+        rep.ob("R-SHRINK", "worker: exactly one recursive call per step", len(rec) == 1 and p.value == q.result_of(rec[0]), "recursive calls: %d" % len(rec), where_of(R), trace_of(p))
         if len(rec) != 1:
             continue
-        # what was peeled
-        pair = None
-        for n_, v in p.frames[0].env.items() if p.frames else []:
-            pass
-        subs_ = set()
-        for e in p.calls():
-            for a in e.d["args"]:
-                for s in subterms(a):
-                    if s[0] == "sub" and s[1] == LST:
-                        subs_.add(s)
-        for s in subterms(rec[0].d["args"][1] if len(rec[0].d["args"]) > 1 else ()):
-            if s[0] == "sub" and s[1] == LST:
-                subs_.add(s)
-        idx = [s for s in subs_ if s[2][0] == "const"]
-        sl = [s for s in subs_ if s[2][0] == "slice"]
-        rest_arg = rec[0].d["args"][1] if len(rec[0].d["args"]) > 1 else None
-        w = [e for e in p.calls() if e.d["callee"] is wrapf]
+        renv = env
+        rb = roles.bound(rec[0], prog)
+        rest_arg = rb.get(LSTp)
         fm = [e for e in p.calls() if q.call_name(e) == "with_flat_map"]
-        rep.require(len(w) >= 1 and len(fm) == 1, "_wrapped_f_apply: step structure (wrap / with_flat_map) not recognised")
+        rep.require(len(fm) == 1 and isinstance(q.recv(fm[0]), tuple) and q.recv(fm[0])[0] == "call", "%s: step structure (W(future).with_flat_map(...)) not recognised" % R.qualname)
+        w = [e for e in p.calls() if q.result_of(e) == q.recv(fm[0])]
+        rep.require(len(w) == 1 and len(w[0].d["args"]) == 1 and w[0].d["callee"] is not None, "%s: step structure (W(future).with_flat_map(...)) not recognised" % R.qualname)
+        if W is None:
+            W = w[0].d["callee"]
+        rep.ob("R-PLUMB", "step and base case wrap futures with the same function", w[0].d["callee"] is W, "", where_of(R, w[0].node))
         fx = w[0].d["args"][0]
-        # fx is ('unpack', future_args[i], 1)
         ok = isinstance(fx, tuple) and fx[0] == "unpack" and fx[2] == 1 and isinstance(fx[1], tuple) and fx[1][0] == "sub" and fx[1][1] == LST and fx[1][2][0] == "const"
-        rep.ob("R-CURRY", "step: the future resolved first is the peeled pair's future", ok, "wrap(%s)" % fmt(fx), where_of(wf, w[0].node), trace_of(p))
+        rep.ob("R-CURRY", "step: the future resolved first is the peeled pair's future", ok, "W(%s)" % fmt(fx), where_of(R, w[0].node), trace_of(p))
         if not ok:
             continue
         peel = fx[1][2][1]
+        KEY = ("unpack", fx[1], 0)
         want_rest = {0: ("sub", LST, ("slice", ("const", 1), ("const", None), ("const", None))), -1: ("sub", LST, ("slice", ("const", None), ("const", -1), ("const", None)))}.get(peel)
-        rep.ob("R-SHRINK", "step: recursion on the list without the peeled pair", want_rest is not None and rest_arg == want_rest, "peeled index %s, recursion on %s" % (peel, fmt(rest_arg) if rest_arg else None), where_of(wf, rec[0].node), trace_of(p))
-        nf = rec[0].d["args"][0]
-        rep.ob("R-PLUMB", "step: the recursion continues with the partially applied function future", isinstance(nf, tuple) and nf[0] == "call" and nf[1][:2] == ("call", fm[0].d["func"]), "first argument %s" % fmt(nf), where_of(wf, rec[0].node))
-        # the flat-map function: lambda x: wrap(future_fn).with_map(lambda fn: fn_runner(fn, x))()
-        c2 = fm[0].d["args"][0] if fm[0].d["args"] else None
-        rep.require(isinstance(c2, tuple) and c2[0] == "closure", "_wrapped_f_apply: flat-map function is not a local closure")
-        sub = it.closures[c2[2]][0]
-        ps2, it2 = ctx.paths(sub, None, depth=0)
+        rep.ob("R-SHRINK", "step: recursion on the list without the peeled pair", want_rest is not None and rest_arg == want_rest, "peeled index %s, recursion on %s" % (peel, fmt(rest_arg) if rest_arg else None), where_of(R, rec[0].node), trace_of(p))
+        nf = rb.get(FNp)
+        fin = [e for e in p.calls() if e.d["func"] == q.result_of(fm[0])]
+        rep.ob("R-PLUMB", "step: the recursion continues with the partially applied function future", len(fin) == 1 and not fin[0].d["args"] and not fin[0].d["kwargs"] and nf == q.result_of(fin[0]), "first argument %s" % (fmt(nf) if nf else None), where_of(R, rec[0].node))
+        # G(x) = W(future_fn).with_map(H)()
+        vals = list(fm[0].d["args"]) + [v for k, v in fm[0].d["kwargs"]]
+        G = fn_of(prog, vals[0]) if len(vals) == 1 else None
+        rep.require(G is not None and len(G.params) == 1, "%s: flat-map function not analysable" % R.qualname)
+        ps2, it2 = ctx.paths(G, None, depth=0)
         for p2 in ps2:
-            w2 = [e for e in p2.calls() if q.call_name(e) == "wrap"]
+            if p2.status != "return":
+                rep.ob("R-PLUMB", "step: the flat-map function returns", False, "status %s" % p2.status, where_of(G), trace_of(p2))
+                continue
             m2 = [e for e in p2.calls() if q.call_name(e) == "with_map"]
-            ok2 = len(w2) == 1 and q.term_name(w2[0].d["args"][0]) == wf.params[0] and len(m2) == 1 and m2[0].d["args"] and m2[0].d["args"][0][0] == "closure"
-            rep.ob("R-PLUMB", "step: the function future is mapped with the partial application", ok2, "", where_of(sub), trace_of(p2))
-            if ok2:
-                sub3 = it2.closures[m2[0].d["args"][0][2]][0]
-                ps3, it3 = ctx.paths(sub3, None, depth=0)
-                for p3 in ps3:
-                    rc = [e for e in p3.calls() if q.call_name(e) == "fn_runner" or (e.d["callee"] is not None and e.d["callee"].name == "fn_runner")]
-                    ok3 = len(rc) == 1 and len(rc[0].d["args"]) == 2 and rc[0].d["args"][0] == ("param", sub3.params[0]) and q.term_name(rc[0].d["args"][1]) == sub.params[0]
-                    rep.ob("R-PLUMB", "step: fn_runner(fn, x) receives the function and the resolved argument", ok3, "calls %s" % [("%s(%s)" % (fmt(e.d["func"]), ", ".join(fmt(a) for a in e.d["args"]))) for e in p3.calls()], where_of(sub3), trace_of(p3))
-                    if rc:
-                        cand = [f for f in wf.nested.values() if f.name == q.call_name(rc[0])]
-                        if len(cand) == 1:
-                            runner = cand[0]
-    rep.require(kinds == {"base", "step"}, "_wrapped_f_apply: expected base and step paths")
-    rep.require(runner is not None and peel is not None, "_wrapped_f_apply: partial application function not identified")
+            w2 = [e for e in p2.calls() if m2 and q.result_of(e) == q.recv(m2[0])]
+            fin2 = [e for e in p2.calls() if m2 and e.d["func"] == q.result_of(m2[0])]
+            ok2 = len(m2) == 1 and len(w2) == 1 and len(fin2) == 1 and w2[0].d["callee"] is W and len(w2[0].d["args"]) == 1 and not fin2[0].d["args"] and p2.value == q.result_of(fin2[0])
+            got = resolve_free(w2[0].d["args"][0], G, R, renv) if ok2 else None
+            rep.ob("R-PLUMB", "step: the function future is mapped with the partial application", ok2 and got == FN, "when this closure runs it wraps %s, not the worker's function future" % (fmt(got) if got is not None else "?"), where_of(G), trace_of(p2))
+            if not ok2:
+                continue
+            vals2 = list(m2[0].d["args"]) + [v for k, v in m2[0].d["kwargs"]]
+            H = fn_of(prog, vals2[0]) if len(vals2) == 1 else None
+            rep.require(H is not None and len(H.params) == 1, "%s: map function of a step not analysable" % R.qualname)
+            ps3, it3 = ctx.paths(H, None, depth=0)
+            for p3 in ps3:
+                cs = p3.calls()
+                ok3 = len(cs) == 1 and len(cs[0].d["args"]) == 2 and not cs[0].d["kwargs"] and p3.status == "return" and p3.value == q.result_of(cs[0])
+                if ok3:
+                    rv = resolve_free(cs[0].d["func"], H, R, renv)
+                    rn = fn_of(prog, rv)
+                    a0 = resolve_free(cs[0].d["args"][0], H, R, renv)
+                    a1 = resolve_free(cs[0].d["args"][1], H, R, renv)
+                    ok3 = rn is not None and rn.parent is R and len(rn.params) == 2
+                    if ok3:
+                        runner = rn
+                        pos = {a0: rn.params[0], a1: rn.params[1]}
+                        fnP = pos.get(("param", H.params[0]))
+                        xP = pos.get(("outer", G.key, G.params[0]))
+                        ok3 = fnP is not None and xP is not None and fnP != xP
+                rep.ob("R-PLUMB", "step: the partial application receives the function and the resolved argument", ok3, "calls %s" % [("%s(%s)" % (fmt(e.d["func"]), ", ".join(fmt(a) for a in e.d["args"]))) for e in cs], where_of(H), trace_of(p3))
+    rep.require(kinds == {"base", "step"}, "%s: expected base and step paths" % R.qualname)
+    rep.require(runner is not None and peel is not None and fnP is not None, "%s: partial application function not identified" % R.qualname)
+    _wrapper_fn(ctx, rep, W)
 
     # ---- the partially applied function
-    outs = [f for f in runner.nested.values()]
-    rep.require(len(outs) == 1, "fn_runner: expected one nested function")
-    out = outs[0]
+    ps, it = ctx.paths(runner, None, depth=0)
+    outs = set()
+    for p in ps:
+        if p.status == "return":
+            o = fn_of(prog, p.value)
+            rep.ob("R-PLUMB", "the partial application returns a function", o is not None and o.parent is runner, "returns %s" % fmt(p.value), where_of(runner), trace_of(p))
+            if o is not None:
+                outs.add(o)
+    rep.require(len(outs) == 1, "%s: expected one returned nested function" % runner.qualname)
+    out = outs.pop()
+    rep.require(out.vararg is not None and out.kwarg is not None, "%s must take *args, **kwargs" % out.qualname)
+    FNV = ("outer", runner.key, fnP)
+    XV = ("outer", runner.key, xP)
     ps, it = ctx.paths(out, None, depth=0)
     kinds = set()
     for p in ps:
@@ -162,94 +373,100 @@ def check(ctx, rep):
         if p.status != "return":
             rep.ob("R-ONCE", "the partially applied function returns", False, "status %s" % p.status, where_of(out), trace_of(p))
             continue
-        uc = [e for e in p.calls() if e.d["func"] in (("free", "fn"), ("param", "fn")) or q.term_name(e.d["func"]) == runner.params[0]]
-        rep.ob("R-ONCE", "the function is called exactly once by the partially applied function", len(uc) == 1, "calls of fn: %d" % len(uc), where_of(out), trace_of(p))
+        uc = [e for e in p.calls() if resolve_free(e.d["func"], out, R, renv) == FNV]
+        rep.ob("R-ONCE", "the function is called exactly once by the partially applied function", len(uc) == 1, "calls of the function: %d" % len(uc), where_of(out), trace_of(p))
         if len(uc) != 1:
             kinds.update({"positional", "keyword"})
             continue
         u = uc[0]
-        rep.ob("R-ONCE", "the result of that call is returned", p.value == ("call", u.d["func"], u.d["args"], u.d["kwargs"], None), "", where_of(out))
+        rep.ob("R-ONCE", "the result of that call is returned", p.value == q.result_of(u), "", where_of(out))
         positional = None
-        for b in p.evs("branch"):
-            t, v = b.d
-            if isinstance(t, tuple) and t[0] == "cmp" and isinstance(t[3], tuple) and t[3][0] == "global" and t[3][2] == "ARGS":
-                positional = v
-                rep.ob("R-CURRY", "the positional tag is recognised by identity", t[1] == "is", "`key %s ARGS`: a keyword argument whose name compares equal to the tag would be passed positionally" % t[1], where_of(out, b.node), trace_of(p, b.seq))
-        rep.require(positional is not None, "partially applied function: test of the key against the positional tag not found")
-        ins = [e for e in p.calls() if q.call_name(e) in ("insert", "append") and q.term_name(q.recv(e)) in (None, "args") and isinstance(q.recv(e), tuple)]
-        kwst = [e for e in p.evs("store") if e.d["target"][0] == "sub"]
-        X = runner.params[1]
+        for t, v, b in q.atoms(p):
+            if isinstance(t, tuple) and t[0] == "cmp" and TAG is not None and TAG in (t[2], t[3]):
+                other = t[3] if t[2] == TAG else t[2]
+                if resolve_free(other, out, R, renv) != KEY:
+                    continue
+                positional = v if t[1] in ("is", "==") else (not v)
+                rep.ob("R-CURRY", "the positional tag is recognised by identity", t[1] in ("is", "is not"), "`key %s TAG`: a keyword argument whose name compares equal to the tag would be passed positionally" % t[1], where_of(out, b.node), trace_of(p, b.seq))
+        if positional is None and TAG is None:
+            continue  # already reported under R-WRAP: no positional tag identified
+        rep.require(positional is not None, "%s: test of the peeled key against the positional tag not found" % out.qualname)
+        # the list that is starred into the call, and the mapping that is double-starred
+        a = u.d["args"]
+        okp = len(a) == 1 and a[0][0] == "star"
+        AL = a[0][1] if okp else None
+        rep.ob("R-CURRY", "the call passes the accumulated positional arguments", okp, "fn called with %s" % [fmt(x) for x in a], where_of(out))
+        kws = u.d["kwargs"]
+        okk = len(kws) == 1 and kws[0][0] is None
+        KD = kws[0][1] if okk else None
+        rep.ob("R-CURRY", "the call passes the accumulated keyword arguments", okk, "fn called with keywords %s" % [(k, fmt(v)) for k, v in kws], where_of(out))
+        if not (okp and okk):
+            continue
+        VSEQ = ("seq", (), ("param", out.vararg), 0)
+        init = [e for e in p.evs("newlist") if e.d["ref"] == AL]
+        base_ok = (AL == VSEQ) or (len(init) == 1 and init[0].d["content"] in (("listof", VSEQ, ()), ("listof", ("param", out.vararg), ())))
+        kd_ok = KD == ("kw", (), ("param", out.kwarg)) or (isinstance(KD, tuple) and KD[0] == "call" and ((KD[1] == ("attr", ("kw", (), ("param", out.kwarg)), "copy") and not KD[2]) or (KD[1] == ("name", "dict") and KD[2] == (("kw", (), ("param", out.kwarg)),))))
+        rep.ob("R-CURRY", "the accumulated arguments start from the caller's own *args, **kwargs", base_ok and kd_ok, "positional from %s, keywords from %s" % (fmt(q.deref(p, AL)), fmt(KD)), where_of(out), trace_of(p))
+        ins = [e for e in p.calls() if q.recv(e) == AL and q.call_name(e) in roles_MUT]
+        kwst = [e for e in p.evs("store") if e.d["target"][0] == "sub"] + [e for e in p.calls() if q.recv(e) == KD and q.call_name(e) in roles_MUT]
         if positional:
             kinds.add("positional")
             ok = len(ins) == 1 and not kwst
             how = None
             if ok:
                 e = ins[0]
-                if q.call_name(e) == "insert" and len(e.d["args"]) == 2 and e.d["args"][0] == ("const", 0) and q.term_name(e.d["args"][1]) == X:
+                av = [resolve_free(x, out, R, renv) for x in e.d["args"]]
+                if q.call_name(e) == "insert" and len(av) == 2 and av[0] == ("const", 0) and av[1] == XV:
                     how = 0
-                elif q.call_name(e) == "append" and len(e.d["args"]) == 1 and q.term_name(e.d["args"][0]) == X:
+                elif q.call_name(e) == "append" and len(av) == 1 and av[0] == XV:
                     how = -1
-            rep.ob("R-CURRY", "positional value inserted where the peeling order requires", ok and how == peel, "the list is peeled at index %s but the value is %s: positional arguments arrive in the wrong order" % (peel, ("inserted with %s(%s)" % (q.call_name(ins[0]), ", ".join(fmt(a) for a in ins[0].d["args"]))) if ins else "not inserted"), where_of(out), trace_of(p))
-            # the call uses the list that received the value and the caller's further args after/before it
-            a = u.d["args"]
-            rep.ob("R-CURRY", "the call passes the accumulated positional arguments", len(a) == 1 and a[0][0] == "star", "fn called with %s" % [fmt(x) for x in a], where_of(out))
+            rep.ob("R-CURRY", "positional value inserted where the peeling order requires", ok and how == peel, "the list is peeled at index %s but the value is %s: positional arguments arrive in the wrong order" % (peel, ("inserted with %s(%s)" % (q.call_name(ins[0]), ", ".join(fmt(x) for x in ins[0].d["args"]))) if ins else "not inserted"), where_of(out), trace_of(p))
         else:
             kinds.add("keyword")
-            ok = len(kwst) == 1 and not ins and q.term_name(kwst[0].d["target"][2]) == "key" and q.term_name(kwst[0].d["value"]) == X
-            rep.ob("R-CURRY", "keyword value bound under its own name", ok, "stores: %s" % [("%s = %s" % (fmt(e.d["target"]), fmt(e.d["value"]))) for e in kwst], where_of(out), trace_of(p))
-            kws = u.d["kwargs"]
-            rep.ob("R-CURRY", "the call passes the accumulated keyword arguments", len(kws) == 1 and kws[0][0] is None, "fn called with keywords %s" % [(k, fmt(v)) for k, v in kws], where_of(out))
-    rep.require(kinds == {"positional", "keyword"}, "partially applied function: expected a positional and a keyword path")
-    # key comes from the same pair as the future
-    ps, it = ctx.paths(wf, None, depth=0)
-    for p in ps:
-        if p.status != "return":
-            continue
-        k = p.frames[0].env.get("key") if p.frames else None
-    # (the unpack target names are checked through the closure's free variable `key` below)
-    keyok = False
-    for node in __import__("ast").walk(wf.node):
-        if isinstance(node, __import__("ast").Assign) and isinstance(node.targets[0], __import__("ast").Tuple) and len(node.targets[0].elts) == 2:
-            names = [getattr(e, "id", None) for e in node.targets[0].elts]
-            if names[0] == "key":
-                keyok = True
-    rep.ob("R-CURRY", "key and future are unpacked from the same peeled pair", keyok, "", where_of(wf))
-
-    # the positional tag is a unique sentinel object
-    import ast as _ast
-    tagdef = wf.module.assigns.get("ARGS", [])
-    uniq = len(tagdef) == 1 and isinstance(tagdef[0], _ast.Call) and isinstance(tagdef[0].func, _ast.Name) and tagdef[0].func.id == "object" and not tagdef[0].args
-    rep.ob("R-CURRY", "the positional tag is a unique sentinel", uniq, "ARGS is defined as %s: it can collide with a keyword argument's name" % (_ast.unparse(tagdef[0]) if tagdef else None), wf.module.relpath)
+            ok = len(kwst) == 1 and not ins and kwst[0].kind == "store" and kwst[0].d["target"][1] == KD and resolve_free(kwst[0].d["target"][2], out, R, renv) == KEY and resolve_free(kwst[0].d["value"], out, R, renv) == XV
+            rep.ob("R-CURRY", "keyword value bound under its own name", ok, "stores: %s" % [("%s = %s" % (fmt(e.d["target"]), fmt(e.d["value"]))) for e in kwst if e.kind == "store"], where_of(out), trace_of(p))
+    rep.require(kinds == {"positional", "keyword"} or TAG is None, "%s: expected a positional and a keyword path" % out.qualname)
 
     # ---- closures that run later must not see a variable that is re-bound after they were created
-    rep.rule("R-CAPTURE", "a closure created inside _wrapped_f_apply / fn_runner and run later (as a map function) does not refer to a local variable of its defining function that is assigned again after the closure was created (Python closures bind late)")
-    for owner in [wf] + [f for f in prog.functions.values() if f.parent is not None and _top(f) is wf]:
+    for owner in [R] + [f for f in prog.functions.values() if f.parent is not None and _top(f) is R]:
         assigned = {}
-        for node in _ast.walk(owner.node):
-            if isinstance(node, (_ast.FunctionDef, _ast.Lambda)) and node is not owner.node:
-                continue
-        body_nodes = list(_own_nodes(owner.node))
-        for node in body_nodes:
-            if isinstance(node, _ast.Name) and isinstance(node.ctx, _ast.Store):
+        for node in _own_nodes(owner.node):
+            if isinstance(node, ast.Name) and isinstance(node.ctx, ast.Store):
                 assigned.setdefault(node.id, []).append(_stmt_end(owner.node, node))
         for sub in owner.nested.values():
-            free = set(n.id for n in _ast.walk(sub.node) if isinstance(n, _ast.Name) and isinstance(n.ctx, _ast.Load)) - set(sub.all_param_names())
+            free = set(n.id for n in ast.walk(sub.node) if isinstance(n, ast.Name) and isinstance(n.ctx, ast.Load)) - set(sub.all_param_names())
             created = (sub.node.lineno, sub.node.col_offset)
             for name in sorted(free):
                 later = [pos for pos in assigned.get(name, []) if pos >= created]
                 rep.ob("R-CAPTURE", "%s does not capture a variable re-bound later (%s)" % (sub.qualname, name), not later,
                        "closure %s refers to `%s`, which %s assigns again after the closure is created: when the closure runs later it sees the new value" % (sub.qualname, name, owner.qualname), where_of(sub))
 
-    # ---- f_apply
-    ps, it = ctx.paths(fa, None, depth=0)
+
+roles_MUT = ("append", "insert", "extend", "pop", "remove", "clear", "reverse", "sort", "update", "setdefault", "__setitem__")
+
+
+def _is_items(src, KW):
+    s = roles.container_of(src)
+    if isinstance(src, tuple) and src[0] == "call" and src[1] == ("attr", KW, "items") and not src[2]:
+        return True
+    return isinstance(s, tuple) and s[0] == "call" and s[1] == ("attr", KW, "items") and not s[2]
+
+
+def _wrapper_fn(ctx, rep, W):
+    """W(f) must bind a function that returns f itself (so that with_map / with_flat_map see f's outcome)"""
+    prog = ctx.prog
+    rep.require(W is not None and len(W.params) == 1, "function wrapping a future into a bound callable not identified")
+    ps, it = ctx.paths(W, None, depth=0)
     for p in ps:
-        if p.status != "return":
-            continue
-        c1 = [e for e in p.calls() if e.d["callee"] is wa]
-        c2 = [e for e in p.calls() if e.d["callee"] is wf]
-        ok = len(c1) == 1 and c1[0].d["args"] == (("star", ("seq", (), ("param", fa.vararg), 0)),) and tuple(c1[0].d["kwargs"]) == ((None, ("kw", (), ("param", fa.kwarg))),)
-        ok = ok and len(c2) == 1 and c2[0].d["args"] == (("param", fa.params[0]), ("call", c1[0].d["func"], c1[0].d["args"], c1[0].d["kwargs"], None))
-        rep.ob("R-PLUMB", "f_apply = _wrapped_f_apply(future_fn, _wrap_args(*future_args, **future_kwargs))", ok, "", where_of(fa), trace_of(p))
+        fb = [e for e in p.calls() if q.call_name(e) == "flat_bind"]
+        ok = p.status == "return" and len(fb) == 1 and p.value == q.result_of(fb[0]) and len(fb[0].d["args"]) == 1
+        if ok:
+            c = fn_of(prog, fb[0].d["args"][0])
+            ok = c is not None and not c.params and not c.vararg
+            if ok:
+                ps2, _ = ctx.paths(c, None, depth=0)
+                ok = all(p2.status == "return" and p2.value in (("free", W.params[0]), ("param", W.params[0])) and not p2.calls() for p2 in ps2)
+        rep.ob("R-PLUMB", "%s(f) binds a function that returns f" % W.qualname, ok, "", where_of(W), trace_of(p))
 
 
 def _top(f):
@@ -260,25 +477,23 @@ def _top(f):
 
 def _own_nodes(fnode):
     """nodes of a function body, not descending into nested functions / lambdas"""
-    import ast as _ast
-    stack = list(_ast.iter_child_nodes(fnode))
+    stack = list(ast.iter_child_nodes(fnode))
     while stack:
         n = stack.pop()
         yield n
-        if isinstance(n, (_ast.FunctionDef, _ast.AsyncFunctionDef, _ast.Lambda)):
+        if isinstance(n, (ast.FunctionDef, ast.AsyncFunctionDef, ast.Lambda)):
             continue
-        stack.extend(_ast.iter_child_nodes(n))
+        stack.extend(ast.iter_child_nodes(n))
 
 
 def _stmt_end(fnode, name_node):
     """position at which the assignment to name_node takes effect: the end of its statement (the value is
     evaluated first, so a closure inside the value is created before the assignment)"""
-    import ast as _ast
     best = None
-    for st in _ast.walk(fnode):
-        if isinstance(st, _ast.stmt) and hasattr(st, "end_lineno"):
+    for st in ast.walk(fnode):
+        if isinstance(st, ast.stmt) and hasattr(st, "end_lineno"):
             if (st.lineno, st.col_offset) <= (name_node.lineno, name_node.col_offset) <= (st.end_lineno, st.end_col_offset):
-                if isinstance(st, (_ast.Assign, _ast.AugAssign, _ast.AnnAssign, _ast.For, _ast.With)):
+                if isinstance(st, (ast.Assign, ast.AugAssign, ast.AnnAssign, ast.For, ast.With)):
                     if best is None or (st.lineno, st.col_offset) >= best[0]:
                         best = ((st.lineno, st.col_offset), (st.end_lineno, st.end_col_offset))
     return best[1] if best else (name_node.lineno, name_node.col_offset)
